@@ -103,7 +103,7 @@ fn classify(e: &Expr) -> (bool, Vec<&'static str>) {
 /// `(x u^a)^b` with a*b around the 32-bit boundary (x in {1, -1, 0, 2}; u an unprefixed base unit): when the product
 /// fits an i32 the result has that power of u, otherwise the power cannot be represented and the result must be
 /// an error — never a value with some other unit.
-fn power_boundary() -> impl Strategy<Value = QCase> {
+pub fn power_boundary() -> impl Strategy<Value = QCase> {
     const BASE: [(&str, usize); 7] = [("m", 1), ("s", 2), ("A", 3), ("K", 4), ("mol", 5), ("cd", 6), ("B", 7)];
     let big = || prop_oneof![Just(2i64), Just(3), Just(255), Just(256), Just(32767), Just(32768), Just(46340), Just(46341), Just(65535), Just(65536), Just(65537), Just(1 << 20), Just((1 << 31) - 1), Just(-32768), Just(-65536), Just(-46341)];
     // the exponent stays <= 2^20 in size: the evaluator multiplies |exponent| times
